@@ -458,6 +458,87 @@ def check_binding(ctx: Ctx):
                    mirror_bad == 0 and viol == 0, detail=f"{n} calls, {mirror_bad} model differences, {viol} property failures")
 
 
+def check_local_binding(ctx: Ctx):
+    """the SAME signature x call matrix as check_binding, for functions and lambdas DEFINED INSIDE traced code (their
+    FunctionDefinition is built by `from_ast_fn` from the AST: defaults are aligned and evaluated by the tracer itself),
+    compared with CPython through traced programs"""
+    rng = ctx.rng
+    cases, meta = [], []
+    n_sigs = ctx.scale(110, 600)
+    for k in range(n_sigs):
+        sig = gen_signature(rng)
+        if k % 3 == 0:      # positional-only parameters with defaults followed by defaulted ordinary parameters
+            names = rng.sample(range(1, 10), 5)
+            n_po, n_ar = rng.randint(1, 2), rng.randint(1, 2)
+            po, ar = names[:n_po], names[n_po:n_po + n_ar]
+            n_def = rng.randint(n_ar + 1, n_po + n_ar)
+            sig = dict(sig, po=po, ar=ar, d={n: 1000 + n for n in (po + ar)[n_po + n_ar - n_def:]}, method=False,
+                       va=sig["va"] if sig["va"] not in po + ar else None, kw=sig["kw"] if sig["kw"] not in po + ar else None,
+                       ko=[n for n in sig["ko"] if n not in po + ar])
+            sig["kd"] = {n: v for n, v in sig["kd"].items() if n in sig["ko"]}
+            if sig["va"] is not None and sig["va"] == sig["kw"]:
+                sig["kw"] = None
+        sig["method"] = False
+        sig["po"] = [n for n in sig["po"] if n != 0]
+        sig["ar"] = [n for n in sig["ar"] if n != 0]
+        sig["d"] = {n: v for n, v in sig["d"].items() if n != 0}
+        src, order = sig_source(sig, f"lf{k}")
+        header = src.split("\n")[0]
+        params = header[header.index("(") + 1: header.rindex(")")]
+        ret = "(" + "".join(pname(n) + ", " for n in order) + ")"
+        ns = {}
+        exec(f"def probe({params}):\n    return None\n", ns)
+        valid, invalid, seen = [], [], set()
+        for _ in range(14):
+            pos, kw = gen_call(rng, sig)
+            key = (tuple(pos), tuple(kw))
+            if key in seen:
+                continue
+            seen.add(key)
+            try:
+                ns["probe"](*pos, **{pname(a): v for a, v in kw})
+                valid.append((pos, kw))
+            except TypeError:
+                invalid.append((pos, kw))
+        kind = "lambda" if k % 2 else "def"
+        decl = f"lf{k} = lambda {params}: {ret}" if kind == "lambda" else f"def lf{k}({params}):\n    return {ret}"
+        # kw-only parameters without default crash `_ClassifyNames` for nested functions (rejection): run those alone
+        solo = any(n not in sig["kd"] for n in sig["ko"])
+        if valid:
+            calls = ["f(" + ", ".join([str(p_) for p_ in pos] + [f"{pname(a)}={v}" for a, v in kw]) + ")" for pos, kw in valid[:6]]
+            cases.append({"defs": "", "solo": solo, "body": [decl] + [f"record(l{c})".replace("lf(", f"lf{k}(") for c in calls]})
+            meta.append((kind, header, calls, False))
+        if invalid and k % 4 == 0:
+            pos, kw = invalid[0]
+            c = "f(" + ", ".join([str(p_) for p_ in pos] + [f"{pname(a)}={v}" for a, v in kw]) + ")"
+            cases.append({"defs": "", "solo": True, "body": [decl, f"record(l{c})".replace("lf(", f"lf{k}(")]})
+            meta.append((kind, header, [c], True))
+    res = run_cases(cases, chunk=25)
+    bad = 0
+    stats = {"same": 0, "rejected": 0, "py-exc": 0, "diff": 0, "accepted-binding-error": 0}
+    for case, (kind, header, calls, inval), r in zip(cases, meta, res):
+        v = verdict(r)
+        stats[v] += 1
+        head = re.sub(r"def lf\d+", "def f", header)
+        ctx.case(key=("local-bind", kind, header, tuple(calls)), nontrivial=v in ("same", "py-exc"), kind=f"local-bind:{kind}:{v}",
+                 sample={"kind": kind, "signature": head, "calls": calls[:3], "verdict": v} if v == "same" and "/" in head else None)
+        if v in ("diff", "accepted-binding-error"):
+            i = 0
+            if v == "diff":
+                i = min(first_diff_stmt(case, r)[0], len(calls) - 1)
+            small = dict(case, body=[case["body"][0], case["body"][1 + i]])
+            r2 = confirm(small)
+            if verdict(r2) not in ("diff", "accepted-binding-error"):
+                small, r2 = case, r
+            what = f"CPython {val_of(r2, 'py')}, tracer {val_of(r2, 'co')}" if verdict(r2) == "diff" else f"CPython rejects the call ({r2['py'][4]}), the tracer accepts it"
+            if report_diff(ctx, f"local-bind:{kind}:{head}:{calls[i]}",
+                           f"{kind} defined inside traced code `{head}` called as {calls[i]}: {what}", small, r2):
+                bad += 1
+    ctx.extra["local_binding_stats"] = stats
+    ctx.obligation("differential correspondence: functions / lambdas defined inside traced code bind the same signature x call matrix (positional-only and keyword-only defaults, *args, **kwargs) like CPython, or are rejected",
+                   bad == 0, detail=f"{len(cases)} traced programs: {stats}")
+
+
 def replay_bind(r):
     sig = r["sig"]
     sig["d"] = {int(k): v for k, v in sig["d"].items()}
@@ -1986,7 +2067,7 @@ def check_directed(ctx: Ctx):
 def run(ctx: Ctx):
     import time
     timing = {}
-    for name, fn in (("binding", check_binding), ("split", check_split), ("boolop", check_boolop), ("chain", check_chain),
+    for name, fn in (("binding", check_binding), ("local-binding", check_local_binding), ("split", check_split), ("boolop", check_boolop), ("chain", check_chain),
                      ("binop", check_binop), ("hierarchy", check_hierarchy), ("cmp", check_cmp), ("directed", check_directed), ("comprehensions", check_comprehensions), ("scoping", check_scoping), ("programs", check_programs)):
         t0 = time.time()
         fn(ctx)
